@@ -86,7 +86,7 @@ type provider struct {
 	disposed int32 // atomic
 
 	// closeDone is closed when the Close call that won the disposed flag has finished;
-	// closer is the goroutine that runs that call (atomic)
+	// closer is the goroutine that runs that call, while it runs
 	closeDone chan struct{}
 	closer    atomic.Int64
 }
@@ -205,16 +205,19 @@ func (p *provider) Close() error {
 		// that a returned Close always means disposed. A call made from inside
 		// that very disposal (the Close method of a singleton or of a scoped
 		// instance that shuts the provider down) cannot wait for it
-		if p.closeDone != nil && p.closer.Load() != goroutineID() {
+		if p.closeDone != nil && !runsOn(&p.closer) {
 			<-p.closeDone
 		}
 		return nil
 	}
 	p.closer.Store(goroutineID())
 
-	if p.closeDone != nil {
-		defer close(p.closeDone)
-	}
+	defer func() {
+		p.closer.Store(0)
+		if p.closeDone != nil {
+			close(p.closeDone)
+		}
+	}()
 
 	var errors []error
 	verifPoint("provider.Close.won")
